@@ -841,6 +841,8 @@ def _arity_of_package_call(self, v, node, fr, want='arity'):
 
 def call_builtin(self, name, pos, kw, node, fr):
     self.emit('call', node, fr, name=name, resolved=None, args=pos, kwargs=kw, external=True, builtin=True)
+    if name == 'type' and len(pos) == 1 and not kw:
+        return T.mk_attr(pos[0], '__class__')          # type(x) is x.__class__: one spelling
     if name == 'isinstance' and len(pos) == 2:
         ta = pos[1].single_atom()
         x0 = pos[0].single_atom()
